@@ -164,6 +164,17 @@ func checkGffReader(c *Ctx, parse *ssa.Function) {
 			// an alternative that does not come from this column at all: the column's value is overridden on some path
 			own := fld(k)
 			for _, l := range phiLeaves(normText(got)) {
+				// evidence of an override: a constant, a value that does not come from this line, or the text of
+				// ANOTHER column; a value obtained from the line in some other way (a regexp with groups, a cursor over the columns) is a shape not read here
+				other := l.Op == "const" || !strings.Contains(l.String(), lineN) // a constant, or something not taken from this line at all (a header value)
+				for j := 0; j < 9; j++ {
+					if j != k && strings.Contains(l.String(), fld(j)) {
+						other = true
+					}
+				}
+				if !other {
+					continue
+				}
 				if !strings.Contains(l.String(), own) && l.Op != "zero" && len(opaqueParts(l, vocabOf(append(extra, cl.want)...))) == 0 {
 					st, why = broken, "may hold "+short(l.String())+", which does not come from column "+fmt.Sprint(k+1)+" of the line (clamped or overridden); want "+short(cl.want)
 				}
@@ -234,14 +245,14 @@ func checkGffReader(c *Ctx, parse *ssa.Function) {
 	}
 	c.judge(stA, "FIELDMAP", "Parse:col9 attributes k=v;k=v", af.Pos(), "Attributes[k]=v for each ';'-separated 'k=v' of fields[8]", whyA)
 	// which lines are feature lines / sequence lines
-	classes := []lineClass{{"blank", ""}, {"##FASTA", "##FASTA"}, {"directive", "##gff-version 3"}, {"directive", "###"}, {"fasta header", ">seq1"}, {"data", "chr1\tsrc\tgene\t1\t9\t.\t+\t.\tID=a"}, {"data", "ACGTACGTAC"}, {"data", "A"}}
+	classes := []lineClass{{"blank", ""}, {"##FASTA", "##FASTA"}, {"directive", "##gff-version 3"}, {"directive", "###"}, {"fasta header", ">seq1"}, {"data", "chr1\tsrc\tgene\t1\t9\t.\t+\t.\tID=a"}, {"data", "#chr1\tsrc\tgene\t1\t9\t.\t+\t.\tID=a"}, {"data", "ACGTACGTAC"}, {"data", "A"}}
 	pcF := view.cond(parse, af.Block())
 	stF, whyF := holds, ""
 	for _, cl := range classes {
 		v, known := classEval(pcF, line, cl)
 		switch {
 		case cl.Name == "data" && known && !v:
-			stF, whyF = broken, "ordinary lines are never parsed as features ("+classTable(pcF, line, classes)+")"
+			stF, whyF = broken, fmt.Sprintf("the feature line %q is never parsed as a feature (only '##' starts a directive; a seqid may begin with a single '#') (%s)", cl.Sample, classTable(pcF, line, classes))
 		case (cl.Name == "blank" || cl.Name == "##FASTA" || cl.Name == "directive") && known && v:
 			stF, whyF = broken, "a "+cl.Name+" line is parsed as a feature ("+classTable(pcF, line, classes)+")"
 		case (cl.Name == "blank" || cl.Name == "##FASTA" || cl.Name == "directive") && !known && stF == holds:
@@ -322,13 +333,15 @@ func checkGffReader(c *Ctx, parse *ssa.Function) {
 					stS, whyS = broken, "sequence lines are never appended ("+classTable(wpc, line, classes)+")"
 				case bad && !known && stS == holds:
 					// open only because of the in-FASTA flag? then the line tests alone must exclude it
+					aboutLine := false // some atom really is a test of this line's text
 					v2, k2 := evalCond3(wpc, func(t *Term) (bool, bool) {
 						if vv, kk := atomOnSample(t, line, cl.Sample); kk {
+							aboutLine = true
 							return vv, true
 						}
 						return true, true // flags and loop conditions set as favourably as possible
 					})
-					if k2 && v2 {
+					if k2 && v2 && aboutLine {
 						stS, whyS = broken, "inside the FASTA section a "+cl.Name+" line is appended to the sequence ("+classTable(wpc, line, classes)+")"
 					}
 				}
